@@ -51,6 +51,8 @@ type readdirCase struct {
 	Lens      []int    `json:"name_lengths"`
 	Seq       []rdStep `json:"seq,omitempty"`
 	Traversal uint32   `json:"traversal_buf_len,omitempty"`
+	Prefix    int      `json:"prefix_calls,omitempty"` // with Mutation: traversal calls before the mutation
+	Mutation  string   `json:"mutation,omitempty"`
 }
 
 func dirName(lens []int) string {
@@ -61,18 +63,33 @@ func dirName(lens []int) string {
 	return s
 }
 
-func makeDir(root string, lens []int) *dirInfo {
-	d := &dirInfo{name: dirName(lens), lens: lens}
-	p := filepath.Join(root, d.name)
+func entryName(j, l int) string { return string(rune('a'+j)) + strings.Repeat("n", l-1) }
+
+func makeDir(root string, lens []int) *dirInfo { return makeDirNamed(root, dirName(lens), lens) }
+
+func makeDirNamed(root, name string, lens []int) *dirInfo {
+	p := filepath.Join(root, name)
 	must(os.MkdirAll(p, 0o755))
 	for j, l := range lens {
-		n := string(rune('a'+j)) + strings.Repeat("n", l-1)
+		n := entryName(j, l)
 		if j%3 == 2 {
 			must(os.Mkdir(filepath.Join(p, n), 0o755))
 		} else {
 			must(os.WriteFile(filepath.Join(p, n), []byte{byte(j)}, 0o600))
 		}
 	}
+	d := scanDir(root, name)
+	d.lens = lens
+	if len(d.list) != len(lens)+2 {
+		must(fmt.Errorf("host listing of %s has %d entries, created %d", p, len(d.list)-2, len(lens)))
+	}
+	return d
+}
+
+// scanDir reads the host's own view of a directory: raw listing order and inode numbers.
+func scanDir(root, name string) *dirInfo {
+	d := &dirInfo{name: name}
+	p := filepath.Join(root, name)
 	f, err := os.Open(p)
 	must(err)
 	raw, err := f.Readdirnames(-1)
@@ -89,9 +106,6 @@ func makeDir(root string, lens []int) *dirInfo {
 			t = ftDir
 		}
 		d.list = append(d.list, rdEnt{n, st.Sys().(*syscall.Stat_t).Ino, t})
-	}
-	if len(raw) != len(lens) {
-		must(fmt.Errorf("host listing of %s has %d entries, created %d", p, len(raw), len(lens)))
 	}
 	return d
 }
@@ -188,16 +202,16 @@ func choices(d *dirInfo, w window) []rdStep {
 }
 
 type rdStats struct {
-	calls, sequences, traversals int64
-	exhaustive                   bool
-	stale                        map[string]int64
-	bounds                       map[string]any
+	calls, sequences, traversals, mutated int64
+	exhaustive                            bool
+	stale                                 map[string]int64
+	bounds                                map[string]any
 }
 
 type rdLocal struct {
-	calls, sequences, traversals int64
-	outcomes                     map[string]int64
-	viol                         []rdViolation
+	calls, sequences, traversals, mutated int64
+	outcomes                              map[string]int64
+	viol                                  []rdViolation
 }
 
 type rdViolation struct {
@@ -359,13 +373,28 @@ func traverse(x *inst, d *dirInfo, buflen uint32, loc *rdLocal, verbose bool) *r
 	}
 	defer x.do(&Op{K: "fd_close", Fd: fd})
 	c := readdirCase{Lens: d.lens, Traversal: buflen}
-	bad := func(field, detail string) *rdViolation {
-		return &rdViolation{sig: "fd_readdir:traversal:" + field,
-			what: fmt.Sprintf("directory with name lengths %v (host order %s), complete traversal starting with buf_len=%d: %s", d.lens, listNames(d.list), c.Traversal, detail), c: c}
+	v, _ = traverseFd(x, fd, d, buflen, -1, "fd_readdir:traversal:", c, loc, verbose)
+	if v == nil {
+		loc.traversals++
+	}
+	return v
+}
+
+// traverseFd traverses from cookie 0 on an open descriptor. maxCalls >= 0 stops after that many calls
+// (a traversal prefix; the entries are then not compared); the second result reports whether the end
+// of the directory was reached.
+func traverseFd(x *inst, fd int32, d *dirInfo, buflen uint32, maxCalls int, sigPrefix string, c readdirCase, loc *rdLocal, verbose bool) (*rdViolation, bool) {
+	first := buflen
+	bad := func(field, detail string) (*rdViolation, bool) {
+		return &rdViolation{sig: sigPrefix + field,
+			what: fmt.Sprintf("directory with name lengths %v (host order now %s), %s traversal from cookie 0 starting with buf_len=%d: %s", d.lens, listNames(d.list), sigPrefix, first, detail), c: c}, false
 	}
 	var got []string
 	cookie := uint64(0)
 	for iter := 0; ; iter++ {
+		if maxCalls >= 0 && iter == maxCalls {
+			return nil, false
+		}
 		if iter > 64 {
 			return bad("no-progress", "traversal does not terminate")
 		}
@@ -406,8 +435,7 @@ func traverse(x *inst, d *dirInfo, buflen uint32, loc *rdLocal, verbose bool) *r
 	if strings.Join(got, "/") != strings.Join(want, "/") {
 		return bad("entries", fmt.Sprintf("traversal yields %v, model: %v (each exactly once)", got, want))
 	}
-	loc.traversals++
-	return nil
+	return nil, true
 }
 
 func readdirExplore(run *fw.Run, outcomes *fw.Counter, samples *fw.Sampler) rdStats {
@@ -441,6 +469,12 @@ func readdirExplore(run *fw.Run, outcomes *fw.Counter, samples *fw.Sampler) rdSt
 			tasks = append(tasks, task{d, b})
 		}
 	}
+	nSeqTasks := len(tasks)
+	for _, d := range dirs {
+		for _, b := range mutBufs {
+			tasks = append(tasks, task{d, b})
+		}
+	}
 	locals := make([]rdLocal, len(tasks))
 	var cappedA atomic.Bool
 	pool(len(tasks), func(w *worker, i int) {
@@ -451,6 +485,10 @@ func readdirExplore(run *fw.Run, outcomes *fw.Counter, samples *fw.Sampler) rdSt
 		t := tasks[i]
 		loc := &locals[i]
 		loc.outcomes = map[string]int64{}
+		if i >= nSeqTasks {
+			mutationTask(w, t.d.lens, t.b, loc)
+			return
+		}
 		in := w.rt.instantiate(root)
 		defer in.close()
 		// buf_len below a dirent header is rejected before anything else
@@ -486,6 +524,7 @@ func readdirExplore(run *fw.Run, outcomes *fw.Counter, samples *fw.Sampler) rdSt
 		st.calls += l.calls
 		st.sequences += l.sequences
 		st.traversals += l.traversals
+		st.mutated += l.mutated
 		for k, v := range l.outcomes {
 			outcomes.AddN(k, v)
 			if strings.Contains(k, "stale-cookie") {
@@ -495,13 +534,14 @@ func readdirExplore(run *fw.Run, outcomes *fw.Counter, samples *fw.Sampler) rdSt
 		for _, v := range l.viol {
 			run.Violation(v.sig, v.what, map[string]any{"kind": "readdir", "readdir": v.c})
 		}
-		if i%997 == 0 {
+		if i%997 == 0 && i < nSeqTasks {
 			samples.Add(map[string]any{"readdir_dir_name_lengths": tasks[i].d.lens, "host_order": listNames(tasks[i].d.list), "buf_len": tasks[i].b, "sequences": l.sequences})
 		}
 	}
 	st.bounds = map[string]any{
 		"directories": len(dirs), "dir_sizes": "0..6", "name_lengths": []int{1, 8, 40}, "buf_lens": fmt.Sprintf("24..%d + {130,200,512,2048}", 24+41*2),
-		"cookie_choices": "rewind, re-read, every d_next of the last window (continue / skip truncated), stale, invalid",
+		"cookie_choices":            "rewind, re-read, every d_next of the last window (continue / skip truncated), stale, invalid",
+		"mutation_between_listings": fmt.Sprintf("mutations %v x buf_len %v x every traversal prefix (0 calls .. complete), then rewound traversal on the same descriptor", mutations, mutBufs),
 		"plans(alternative buf_lens after the first call, depth)": fmt.Sprint(plans),
 	}
 	return st
@@ -510,6 +550,20 @@ func readdirExplore(run *fw.Run, outcomes *fw.Counter, samples *fw.Sampler) rdSt
 func replayReaddir(c *readdirCase) int {
 	if c == nil {
 		fw.Fatalf("replay file has no readdir case")
+	}
+	if c.Mutation != "" {
+		w := newWorker(0)
+		root := filepath.Join(w.dir, "rdm")
+		must(os.MkdirAll(root, 0o755))
+		in := w.rt.instantiate(root)
+		defer in.close()
+		v, _, _ := runMutated(in, root, c.Lens, c.Traversal, c.Prefix, c.Mutation, &rdLocal{outcomes: map[string]int64{}}, true)
+		if v != nil {
+			fmt.Printf("MISMATCH signature=%s: %s\n", v.sig, v.what)
+			return 1
+		}
+		fmt.Println("no mismatch: the rewound listing shows the changed directory")
+		return 0
 	}
 	root := filepath.Join(tmpRoot, "rd")
 	d := makeDir(root, c.Lens)
